@@ -55,6 +55,13 @@ def task_spec(draw):
 def schedules(draw, spawner='POPEN'):
     nb = draw(st.integers(1, 3))
     bulks = [draw(st.lists(task_spec(), min_size=1, max_size=3)) for _ in range(nb)]
+    if spawner == 'NOOP':
+        # the NOOP executor "runs" sleep commands for their first argument (seconds; sleep(1) also
+        # takes a unit suffix), everything else ends at once
+        for b in bulks:
+            for sp in b:
+                if draw(st.booleans()):
+                    sp['sleep_arg'] = draw(st.sampled_from(['0', '0.5', '2', '1m', '0.5s', 'x', None]))
     nt = sum(len(b) for b in bulks)
     moves = [['submit']]
     for _ in range(draw(st.integers(3, 45))):
@@ -257,14 +264,20 @@ def normalise(case):
         return None
 
 
-def run_case(case):
-    if case.get('kind') == 'fluxsim':
-        return fluxsim.run_case_for(PID, case)
+def noop_view(case):
     if case.get('spawner') == 'NOOP':
         # NOOP has no cancel / timeout / launch faults: success path only
         case = dict(case)
-        case['bulks'] = [[{'exit': 0} for _ in b] for b in case['bulks']]
+        case['bulks'] = [[({'exit': 0, 'sleep_arg': sp['sleep_arg']} if isinstance(sp, dict) and
+                           'sleep_arg' in sp else {'exit': 0}) for sp in b] for b in case['bulks']]
         case['moves'] = [m for m in case['moves'] if m[0] != 'cancel']
+    return case
+
+
+def run_case(case):
+    if case.get('kind') == 'fluxsim':
+        return fluxsim.run_case_for(PID, case)
+    case = noop_view(case)
     sim = execsim.run_schedule(case)
     res = CaseResult()
     seen = set()
